@@ -59,16 +59,21 @@ def findBestChannels (g : Geometry) (T : Mat) (thr : Rat) : List Nat × List Rat
   let ids := order.map fun k => ids.getD k 0
   (ids, ids.map fun c => amp.getD c 0, best)
 
-/-- `_unwhiten(x, channel_ids)`: `x @ wmi[ix_(ch, ch)]` (whole matrix when `ch = none`) -/
-def unwhiten (wmi : Mat) (x : Mat) (ch : Option (List Nat)) : Mat :=
-  match ch with
-  | none => matMul x wmi
-  | some l => matMul x (l.map fun i => l.map fun j => (wmi.getD i []).getD j 0)
+/-- the block `wmi[np.ix_(ch, ch)]` -/
+def subMat (wmi : Mat) (l : List Nat) : Mat := l.map fun i => l.map fun j => (wmi.getD i []).getD j 0
+
+/-- `_unwhiten(x, channel_ids)`, model.py:753-760: `np.dot(x, mat) * template_scaling` with `mat = wmi`
+(`ch = none`) or `mat = wmi[ix_(ch, ch)]`; `sc` = the `template_scaling` entry of params.py (1.0 when absent) -/
+def unwhiten (wmi : Mat) (sc : Rat) (x : Mat) (ch : Option (List Nat)) : Mat :=
+  let mat := match ch with
+    | none => wmi
+    | some l => subMat wmi l
+  (matMul x mat).map fun row => row.map (· * sc)
 
 /-- `_get_template_dense(t, channel_ids, amplitude_threshold, unwhiten)` -/
-def getTemplateDense (g : Geometry) (wmi : Mat) (Tw : Mat) (explicit : Option (List Nat)) (thr : Rat)
-    (unwh : Bool) : Record :=
-  let T := if unwh then unwhiten wmi Tw none else Tw
+def getTemplateDense (g : Geometry) (wmi : Mat) (sc : Rat) (Tw : Mat) (explicit : Option (List Nat))
+    (thr : Rat) (unwh : Bool) : Record :=
+  let T := if unwh then unwhiten wmi sc Tw none else Tw
   let (ids, amp, best) := findBestChannels g T thr
   match explicit with
   | none => ⟨T.map fun row => ids.map fun c => row.getD c 0, ids, amp, best⟩
@@ -79,15 +84,34 @@ where
   /-- per-column peak-to-peak of a block with a known number of columns -/
   chAmps' (M : Mat) (k : Nat) : List Rat := (List.range k).map fun j => ptp (col M j)
 
-/-- `_get_template_sparse(t, unwhiten)`: `cols` = stored channel ids of the template (−1 = unused) -/
-def getTemplateSparse (wmi : Mat) (Tw : Mat) (cols : List Int) (unwh : Bool) : Record :=
-  let k := cols.length
-  let tmax := (List.range k).map fun j => listMax ((col Tw j).map fun x => if x < 0 then -x else x)
-  let thr := listMax tmax * (1 / 1000000)
-  let keep := (List.range k).filter fun j => decide (tmax.getD j 0 > thr) && cols.getD j 0 != -1
+/-- the value a column table of the given integer dtype holds for "−1" (`np.array(-1).astype(dtype)`): −1 in a
+signed table, the all-ones value `2^bits − 1` in an unsigned one (what `astype(np.uint32)` makes of −1, e.g. in
+phylib/io/merge.py:285) -/
+def minusOne (unsigned : Bool) (bits : Nat) : Int := if unsigned then 2 ^ bits - 1 else -1
+
+/-- largest absolute value of stored column `j` (`np.abs(template_w).max(axis=0)[j]`) -/
+def colAbsMax (Tw : Mat) (j : Nat) : Rat := listMax ((col Tw j).map fun x => if x < 0 then -x else x)
+
+/-- stored columns that are in use: `cols[j] != -1` (`m` = the table's −1, `minusOne`) -/
+def usedCols (cols : List Int) (m : Int) : List Nat :=
+  (List.range cols.length).filter fun j => cols.getD j 0 != m
+
+/-- the kept stored columns of `_get_template_sparse`, model.py:912-931: first the unused columns are removed, then,
+among the used ones, those whose largest absolute value does not exceed `1e-6` of the largest over the USED
+columns ("no signal").  (Order of the two removals as repaired, PF-C05g: before, the signal test ran over ALL stored
+columns, so a value under an unused column could make a used channel "signal-free"; and `!= -1` did not recognise the
+all-ones entry of an unsigned table, PF-C05h.) -/
+def keptCols (Tw : Mat) (cols : List Int) (m : Int) : List Nat :=
+  let used := usedCols cols m
+  let thr := listMax (used.map (colAbsMax Tw)) * (1 / 1000000)
+  used.filter fun j => decide (colAbsMax Tw j > thr)
+
+/-- `_get_template_sparse(t, unwhiten)`: `cols` = stored channel ids of the template (`m` = unused) -/
+def getTemplateSparse (wmi : Mat) (sc : Rat) (Tw : Mat) (cols : List Int) (m : Int) (unwh : Bool) : Record :=
+  let keep := keptCols Tw cols m
   let ch := keep.map fun j => (cols.getD j 0).toNat
   let sub : Mat := Tw.map fun row => keep.map fun j => row.getD j 0
-  let T := if unwh then unwhiten wmi sub (some ch) else sub
+  let T := if unwh then unwhiten wmi sc sub (some ch) else sub
   let amp := (List.range keep.length).map fun j => ptp (col T j)
   let best := ch.getD (argmaxFirst amp) 0
   let order := argsortDesc amp
